@@ -67,6 +67,7 @@ def r1(cx):
     for t in cn:
         o = sl.origins(t.args[1])
         if any(k == "call" and x is h.from_slice for k, x in Slice(body, du, extra_pass=("=branch", "=map_err")).origins(t.args[1])): okr = True
+    hc.check_request_immutable(cx, "C03.R1", h)
     cx.check(okr, "C03.R1", "varlink:handle:request-unchanged", "%s %s" % (d.sp, body.path), "the Call given to the interface does not wrap the request as parsed", note_ok="Call::new(writer, &req) with req = from_slice(message)")
 
 
